@@ -235,9 +235,16 @@ def _potential_case(draw):
 @st.composite
 def _slope_case(draw):
     pd = draw(gen.potdef(draw(st.sampled_from([0, 1, 1])), [], [], max_ranges=2, analytic_only=True))
+    cutoff = draw(st.sampled_from([3.0, 5.0, 6.5, 10.0]))
+    plateau = draw(st.integers(0, 2)) == 0
+    if plateau:
+        # whole-number energy / derivative on the first rows (Python ints), a curved form further out
+        sp = draw(gen.special_pair_model("int_plateau"))
+        pd, cutoff = sp["pair"][0][2], sp["cutoff"]
     return {"kind": "table_slope", "env": {"custom": [], "table": []}, "pd": pd,
-            "cutoff": draw(st.sampled_from([3.0, 5.0, 6.5, 10.0])), "nr": draw(st.sampled_from([801, 1201, 2001])),
-            "target": draw(st.sampled_from(["LAMMPS", "DL_POLY"]))}
+            "cutoff": cutoff, "nr": draw(st.sampled_from([801, 1201, 2001])),
+            "target": draw(st.sampled_from(["LAMMPS", "DL_POLY"])), "int_plateau": plateau,
+            "int_returns": draw(st.integers(0, 2)) == 0}
 
 
 @st.composite
@@ -612,9 +619,9 @@ def _check_table_slope(case):
     from vlib import parsers, pairtab
     from atsim.potentials.pair_tabulation import LAMMPS_PairTabulation, DLPoly_PairTabulation
     pd, cutoff, nr = case["pd"], case["cutoff"], case["nr"]
-    cls = ["stratum:table_slope", "slope:" + case["target"]]
+    cls = ["stratum:table_slope", "slope:" + case["target"]] + (["slope:int_plateau"] if case.get("int_plateau") else [])
     ref = model.Ref(case["env"])
-    m = {"env": case["env"], "pair": [["A", "B", pd]]}
+    m = {"env": case["env"], "pair": [["A", "B", pd]], "int_returns": case.get("int_returns")}
     v = []
     try:
         pots = pairtab.api_potentials(m)
